@@ -398,3 +398,215 @@ func TestVerifC07Mesh(t *testing.T) {
 }
 
 var _ = time.Second
+
+// C07.retry — "every peer the node adds on its own initiative is sent GRAFT and every still-connected peer it
+// removes is sent PRUNE" when the peer's outbound queue is full at that moment: the control message is dropped,
+// kept for retry and has to go out once the queue has room. Peers' queues hold one or two RPCs and puppets stop
+// reading at random; an obligation is opened by every mesh change the node makes on its own (raw-tracer Graft /
+// Prune callbacks outside the handling of a remote GRAFT / PRUNE), closed by the RPC that carries the message
+// being accepted by the peer's queue (SendRPC), and voided when the mesh change is undone or the stream ends.
+// After the history every puppet reads again, six quiet heartbeats pass, and no obligation may be left.
+func TestVerifC07Retry(t *testing.T) {
+	vRun(t, "C07.retry", vCount(1000, 15000), func(c *vCase) {
+		c.Bubble(func() {
+			params := gsParams(c)
+			th := PeerScoreThresholds{GossipThreshold: -100, PublishThreshold: -200, GraylistThreshold: -300, AcceptPXThreshold: 1000, OpportunisticGraftThreshold: 1}
+			qsz := c.Range(1, 2)
+			w := gsNewWorld(c, gsConfig{params: params, th: th, scoring: c.Chance(0.7), nPups: c.Range(4, 12), floodSub: 0,
+				opts: []Option{WithPeerOutboundQueueSize(qsz)}})
+			if w == nil {
+				return
+			}
+			defer w.Close()
+			type key struct {
+				p peer.ID
+				t string
+			}
+			type oblig struct {
+				kind  string
+				since time.Time
+				drops int
+			}
+			pend := map[key]*oblig{}
+			classes := map[string]int{}
+			mark := 0
+			absorb := func(opCtx string, theOp *gsOp) {
+				evs := w.nd.tr.Since(mark)
+				mark += len(evs)
+				for _, e := range evs {
+					ctx, op := opCtx, theOp
+					if op != nil && e.T.Before(op.T) {
+						ctx, op = "heartbeat", nil
+					}
+					k := key{e.Peer, e.Topic}
+					switch e.Kind {
+					case "graft":
+						remote := op != nil && op.Topic == e.Topic && (ctx == "graftall" || (ctx == "graft" && op.Pup != nil && op.Pup.p.ID() == e.Peer))
+						if remote {
+							delete(pend, k)
+							classes["added_on_remote_graft"]++
+						} else {
+							pend[k] = &oblig{kind: "GRAFT", since: e.T}
+							classes["added_on_own_initiative"]++
+						}
+					case "prune":
+						remote := op != nil && ctx == "prune" && op.Topic == e.Topic && op.Pup != nil && op.Pup.p.ID() == e.Peer
+						if remote {
+							delete(pend, k)
+							classes["removed_on_remote_prune"]++
+						} else {
+							pend[k] = &oblig{kind: "PRUNE", since: e.T}
+							classes["removed_on_own_initiative"]++
+						}
+					case "closedout":
+						for q := range pend {
+							if q.p == e.Peer {
+								delete(pend, q)
+							}
+						}
+					case "send", "drop":
+						if e.RPC == nil {
+							continue
+						}
+						for _, g := range e.RPC.GetControl().GetGraft() {
+							q := key{e.Peer, g.GetTopicID()}
+							if o := pend[q]; o != nil && o.kind == "GRAFT" {
+								if e.Kind == "send" {
+									delete(pend, q)
+									if o.drops > 0 {
+										classes["graft_sent_after_drop"]++
+									} else {
+										classes["graft_sent_at_once"]++
+									}
+								} else {
+									o.drops++
+								}
+							}
+						}
+						for _, pr := range e.RPC.GetControl().GetPrune() {
+							q := key{e.Peer, pr.GetTopicID()}
+							if o := pend[q]; o != nil && o.kind == "PRUNE" {
+								if e.Kind == "send" {
+									delete(pend, q)
+									if o.drops > 0 {
+										classes["prune_sent_after_drop"]++
+									} else {
+										classes["prune_sent_at_once"]++
+									}
+								} else {
+									o.drops++
+								}
+							}
+						}
+					}
+				}
+			}
+			w.afterOp = func(op *gsOp) { absorb(op.Kind, op) }
+			w.onTick = func(k int, s0, s1 *vGSnap, evs []vEvt, marks []int) {
+				absorb("heartbeat", nil)
+				c.Count("heartbeats", 1)
+			}
+			stallOp := func(w *gsWorld) *gsOp {
+				gp := w.pups[c.Intn(len(w.pups))]
+				op := &gsOp{Kind: "stall", Pup: gp, T: time.Now()}
+				if gp.p.stalled {
+					gp.p.Unstall()
+					op.Kind = "unstall"
+				} else {
+					gp.p.Stall()
+				}
+				vSettle(5 * time.Millisecond)
+				return op
+			}
+			graftAll := func(w *gsWorld) *gsOp {
+				tn := w.topics[0]
+				op := &gsOp{Kind: "graftall", Topic: tn, T: time.Now()}
+				k := 0
+				for _, gp := range w.pups {
+					if gp.attached && gp.subbed[tn] {
+						w.send(gp, vGraftRPC(tn))
+						k++
+					}
+				}
+				if k == 0 {
+					return &gsOp{Kind: "noop"}
+				}
+				vSettle(5 * time.Millisecond)
+				op.Arg = uint64(k)
+				return op
+			}
+			w.extraOps = append(w.extraOps, stallOp, stallOp, stallOp, graftAll)
+			w.Populate(0.9, 0.9)
+			// a good part of the puppets is not reading from the start: the GRAFTs of the first join meet full queues
+			for _, gp := range w.pups {
+				if c.Chance(0.4) {
+					gp.p.Stall()
+				}
+			}
+			if c.Chance(0.85) {
+				if s, err := w.handle("t").Subscribe(); err == nil {
+					w.subs["t"] = s
+				}
+			}
+			vSettle(5 * time.Millisecond)
+			absorb("init", nil)
+			w.RunTicks(c.Range(8, 30), 4)
+			if c.Stopped() {
+				return
+			}
+			// quiescence: everybody reads again, nothing else happens
+			for _, gp := range w.pups {
+				gp.p.Unstall()
+			}
+			vSettle(5 * time.Millisecond)
+			absorb("unstall", nil)
+			before := len(pend)
+			w.RunTicks(6, 0)
+			if c.Stopped() {
+				return
+			}
+			last := w.nd.Snap()
+			for q, o := range pend {
+				gp := w.byID[q.p]
+				if gp == nil || !gp.attached {
+					continue
+				}
+				if _, ok := last.QPeers[q.p]; !ok {
+					continue
+				}
+				_, inMesh := last.Mesh[q.t][q.p]
+				if (o.kind == "GRAFT") != inMesh {
+					// the change was undone without a callback (the peer left and came back, the topic was left)
+					continue
+				}
+				h := w.hist
+				if len(h) > 50 {
+					h = h[len(h)-50:]
+				}
+				c.Violatef(map[string]string{"kind": "control_message_never_sent", "what": o.kind, "dropped": fmt.Sprint(o.drops > 0)},
+					"queue size %d: the node changed its mesh for %s with %s at +%v on its own initiative (in mesh now: %v) but no %s was accepted by that peer's queue since (%d attempts dropped), six quiet heartbeats after every peer resumed reading\n recent history=%v",
+					qsz, q.t, w.r.Name(q.p), o.since.Sub(w.r.born), inMesh, o.kind, o.drops, h)
+				return
+			}
+			for k, v := range classes {
+				c.Count("class:"+k, v)
+			}
+			c.Count("obligations_open_when_reading_resumed", before)
+			var ks []string
+			for k := range classes {
+				ks = append(ks, k)
+			}
+			sort.Strings(ks)
+			c.Sig(qsz, strings.Join(ks, ","), before > 0)
+			c.Nontrivial(classes["graft_sent_after_drop"]+classes["prune_sent_after_drop"] > 0)
+			c.State(qsz, strings.Join(ks, ","), min(before, 4))
+			if c.Idx < 2 {
+				h := w.hist
+				if len(h) > 30 {
+					h = h[:30]
+				}
+				c.Sample(map[string]any{"queue_size": qsz, "puppets": len(w.pups), "first_ops": h, "classes": classes, "open_when_reading_resumed": before})
+			}
+		})
+	})
+}
